@@ -60,7 +60,9 @@ type BannerCase struct {
 var (
 	ctypes = []string{"text/html", "text/html; charset=utf-8", "TEXT/HTML", "Text/Html;charset=UTF-8", "application/xhtml+xml", "text/plain", "application/json",
 		"text/htmlx", "application/octet-stream", "image/png", "text/xml", "application/XHTML+XML"}
-	dispositions = []string{"", "", "", "inline", "attachment", "attachment; filename=\"x.html\"", "Attachment; filename=x.html", "ATTACHMENT", "inline; filename=attachment.html"}
+	dispositions = []string{"", "", "", "inline", "attachment", "attachment; filename=\"x.html\"", "Attachment; filename=x.html", "ATTACHMENT", "inline; filename=attachment.html",
+		"attachment; filename=monthly report.html", "attachment; filename", "attachment; filename=", "attachment;", "attachment ; filename=\"a\"; filename=\"b\"",
+		"attachment; filename=r\u00e9sum\u00e9.html", "attachment; filename*=UTF-8''x.html", " attachment", "attachment; filename=a/b.html", "attachment;filename=\"unterminated"}
 	accepts      = []string{"text/html", "text/html,application/xhtml+xml,application/xml;q=0.9,*/*;q=0.8", "*/*", "", "application/json", "TEXT/HTML", "text/plain, text/html;q=0.5", "image/webp"}
 )
 
